@@ -1,0 +1,77 @@
+//! Verification hooks. Compiled only with `--cfg expression_engine_verif`; nothing here is
+//! part of the public API of a normal build.
+use crate::token::Token;
+use crate::tokenizer::Tokenizer;
+use once_cell::sync::OnceCell;
+
+pub use crate::descriptor::DescriptorManager;
+
+/// One token as seen by the private tokenizer: kind, payload rendered as text, byte span.
+#[derive(Clone, Debug, PartialEq)]
+pub struct Tok {
+    pub kind: &'static str,
+    pub text: String,
+    pub start: usize,
+    pub end: usize,
+}
+
+/// Drives the private `Tokenizer` over `input` until EOF or the first error. Returns the
+/// tokens produced so far and the error text, if any.
+pub fn tokenize(input: &str) -> (Vec<Tok>, Option<String>) {
+    crate::init::init();
+    let mut tokenizer = Tokenizer::new(input);
+    let mut ans = Vec::new();
+    loop {
+        let token = match tokenizer.next() {
+            Ok(token) => token,
+            Err(e) => return (ans, Some(e.to_string())),
+        };
+        let (kind, text, span) = match token {
+            Token::Operator(s, span) => ("operator", s.to_string(), span),
+            Token::Delim(ty, span) => ("delim", ty.string(), span),
+            Token::Number(d, span) => ("number", d.to_string(), span),
+            Token::Comma(s, span) => ("comma", s.to_string(), span),
+            Token::Bool(b, span) => ("bool", b.to_string(), span),
+            Token::String(s, span) => ("string", s.to_string(), span),
+            Token::Reference(s, span) => ("reference", s.to_string(), span),
+            Token::Function(s, span) => ("function", s.to_string(), span),
+            Token::Semicolon(s, span) => ("semicolon", s.to_string(), span),
+            Token::EOF => return (ans, None),
+        };
+        ans.push(Tok {
+            kind,
+            text,
+            start: span.0,
+            end: span.1,
+        });
+    }
+}
+
+static INIT_PROBE: OnceCell<Box<dyn Fn(u8) + Send + Sync>> = OnceCell::new();
+
+/// Installs a callback that `init()` invokes after each of its four registration stages
+/// (1 = prefix operators, 2 = infix, 3 = postfix, 4 = functions). First caller wins.
+pub fn set_init_probe(probe: Box<dyn Fn(u8) + Send + Sync>) -> bool {
+    INIT_PROBE.set(probe).is_ok()
+}
+
+pub(crate) fn init_probe(stage: u8) {
+    if let Some(probe) = INIT_PROBE.get() {
+        probe(stage);
+    }
+}
+
+/// `try_lock` on the process-global stores: [prefix ops, infix ops, postfix ops, functions,
+/// descriptors]. `true` = the lock was free at the moment of the call.
+pub fn locks_free() -> [bool; 5] {
+    [
+        crate::operator::PrefixOpManager::new().verif_lock_free(),
+        crate::operator::InfixOpManager::new().verif_lock_free(),
+        crate::operator::PostfixOpManager::new().verif_lock_free(),
+        crate::function::InnerFunctionManager::new()
+            .store
+            .try_lock()
+            .is_ok(),
+        crate::descriptor::DescriptorManager::new().verif_lock_free(),
+    ]
+}
